@@ -85,8 +85,30 @@ class Query(object):
         return '\n'.join(lines)
 
 
-def discharge(ex, kind='z3', timeout=600, log=None, want_models=True, only=None):
+_PD = {}
+
+
+def _pd_worker(idxs):
+    g = _PD
+    return discharge(g['ex'], g['kind'], g['timeout'], None, g['want_models'], set(idxs), 1)
+
+
+def discharge(ex, kind='z3', timeout=600, log=None, want_models=True, only=None, workers=1):
     """returns list of dicts per obligation: status in unsat/sat/unknown, model"""
+    idx_all = [i for i in range(len(ex.obligations)) if only is None or i in only]
+    if workers > 1 and len(idx_all) > 40:
+        # split the obligations over several solver processes
+        import multiprocessing
+        nw = min(workers, max(1, len(idx_all) // 20))
+        chunks = [idx_all[i::nw] for i in range(nw)]
+        _PD.clear()
+        _PD.update({'ex': ex, 'kind': kind, 'timeout': timeout, 'want_models': want_models})
+        with multiprocessing.Pool(nw) as pool:
+            parts = pool.map(_pd_worker, chunks)
+        res = {'vacuity': parts[0]['vacuity'], 'results': sorted([r for p in parts for r in p['results']], key=lambda r: r['index']),
+               'nodes': max(p['nodes'] for p in parts), 'vars': parts[0]['vars'], 'solver_time': sum(p['solver_time'] for p in parts),
+               'queries': sum(p['queries'] for p in parts)}
+        return res
     q = Query(ex, only=only)
     s = solve.Solver(kind, timeout)
     s.send(q.preamble())
@@ -96,8 +118,31 @@ def discharge(ex, kind='z3', timeout=600, log=None, want_models=True, only=None)
     st, _ = s.check(None)
     vac = {'assumptions_sat': st}
     results = []
+    # implicit run-time checks (panics, bounds, nil, ...) are first tried in batches: one query for the
+    # disjunction of a chunk; unsat discharges every member, otherwise the members are checked one by one
+    batched = {}
+    idxs = [i for i, o in enumerate(ex.obligations) if (only is None or i in only) and o['kind'] != 'assert']
+    if len(idxs) > 8:
+        CH = 64
+        for c in range(0, len(idxs), CH):
+            chunk = idxs[c:c + CH]
+            t0 = time.time()
+            st, _ = s.check('(or false %s)' % ' '.join(TM.name(ex.obligations[i]['viol']) for i in chunk))
+            if s.errors:
+                s.errors = []
+                st = 'unknown'
+            if st == 'unsat':
+                for i in chunk:
+                    batched[i] = (time.time() - t0) / len(chunk)
+            if s.p.poll() is not None:
+                s = solve.Solver(kind, timeout)
+                s.send(q.preamble())
+                s.sync(extra=120)
     for i, o in enumerate(ex.obligations):
         if only is not None and i not in only:
+            continue
+        if i in batched:
+            results.append({'index': i, 'kind': o['kind'], 'label': o['label'], 'pos': o['pos'], 'fn': o['fn'], 'status': 'unsat', 'time': batched[i], 'model': None, 'batched': True})
             continue
         if s.p.poll() is not None:
             s = solve.Solver(kind, timeout)
